@@ -191,7 +191,32 @@ def pol1(ctx):
                                  "the %s arm calls %s with the %s polarity: `[%sF]` is matched / applied with the opposite sign" % (
                                      label, what, "positive" if par == 0 else "negative", {"Positive": "+", "Negative": "-", "Alpha": "α", "InvAlpha": "-α"}[label]))
                     j += 1
-    r.analysed = {"matches": n_match, "mirror_comparisons": n_cmp, "orientation_sites": n_site}
+    # ---- (c) one arm for both signs: an or-pattern that names both variants of a polarity enum at the same place
+    n_or = 0
+    for b in lib.bodies:
+        if not b.hir or b.in_test_mod() or b.exp:
+            continue
+        k = 0
+        for m in hirq.matches(b):
+            for arm in m["arms"]:
+                for op in [q for q in hirq.walk_pats(arm["pat"]) if q.get("p") == "or"]:
+                    tops = set()
+                    for alt in op.get("pats", []):
+                        a0 = alt
+                        while isinstance(a0, dict) and a0.get("p") == "ref":
+                            a0 = a0.get("sub")
+                        tops.add((a0 or {}).get("path") or "")
+                    for enum, pos, neg in ((BINMOD, "Positive", "Negative"), (ALPHAMOD, "Alpha", "InvAlpha")):
+                        if {"%s::%s" % (enum, pos), "%s::%s" % (enum, neg)} <= tops:
+                            n_or += 1
+                            inert = hirq.arm_is_pure_panic(arm["body"]) or hirq.strip(arm["body"]).get("e") in ("tup", "lit", "ret") or (
+                                hirq.strip(arm["body"]).get("e") == "call" and (hirq.strip(hirq.strip(arm["body"])["f"]).get("path") or "").endswith("Result::Err"))
+                            r.inst("%s: one arm for `%s | %s` (%s)" % (b.path, pos, neg, "no effect in it" if inert else "with an effect"), fn_loc(b, arm.get("ln") or m["ln"]), "ok" if inert else "report")
+                            if not inert:
+                                r.report("POL-1c|%s|%s#%d" % (b.path, enum.rsplit("::", 1)[-1], k), fn_loc(b, arm.get("ln") or m["ln"]), b.path,
+                                         "one arm handles `%s` and `%s` alike: the %s sign is dropped -- `[-αF]` behaves as `[αF]`" % (pos, neg, "inverse" if enum == ALPHAMOD else "negative"))
+                            k += 1
+    r.analysed = {"matches": n_match, "mirror_comparisons": n_cmp, "orientation_sites": n_site, "merged_sign_arms": n_or}
     if n_match < 30 or n_cmp < 8 or n_site < 12:
         raise AnchorMissing("POL-1: %d matches, %d mirror comparisons, %d orientation sites (expected >= 30 / 8 / 12)" % (n_match, n_cmp, n_site))
     return r
